@@ -56,6 +56,12 @@ def run(rep):
     for i, s in enumerate(strs if rep.tier == "thorough" else corpus.pick(strs, 300, rep.seed)):
         jobs.append({"classes": s, "fmt": "dict", "parts": ("c01", "c15")})
     rep.bounds["forms"] = {"label_piece_forms": len(doms), "decorated_structures": lim, "hostile": len(jobs) - len(doms) - lim}
+    # the workbooks the repository's own test-suite converts (frozen input corpus): every accepted one in both print modes
+    from harness import suitecorpus
+
+    sj = suitecorpus.doc_jobs(("c01", "c15"))
+    jobs += sj
+    rep.bounds["forms"]["suite_corpus"] = len(sj)
     outs = conv.map_cases(_xml.run_doc, jobs, chunksize=8)
     sub, acc, rejected = _xml.validate_docs(rep, PROP, outs, "forms converted compact and pretty")
     for o, clause in rejected:
@@ -90,7 +96,7 @@ def replay(rep, case):
         if 0 not in acc:
             rep.violation(f"{PROP}:{info['progress'].get(0, (0, '?'))[1]}", "writer replay", c)
         return
-    o = _xml.run_doc({"wb": c["wb"], "fmt": c.get("fmt", "dict"), "parts": ("c01", "c15")})
+    o = _xml.run_doc({"wb": c["wb"], "fmt": c.get("fmt", "dict"), "parts": ("c01", "c15"), "kwargs": (c.get("job") or {}).get("kwargs")})
     sub, acc, rejected = _xml.validate_docs(rep, PROP, [o], "replay")
     for o, clause in rejected:
         rep.violation(f"{PROP}:{clause}", f"clause {clause}", c)
